@@ -2009,3 +2009,253 @@ Proof.
   split; [exact C03_ReachFullEx.ex3_full_hyps|]. split; [exact C04_Reach3Ex.reach3_ci_example|].
   destruct C04_SetPath.psm_witness as (A & B & _). exact (conj A B).
 Qed.
+
+(* ================================================================== task c04cost *)
+From RU Require Proofs.C04_Table2.
+
+(* THE INVENTORY TABLE WITH REAL CLAIMS ON ROWS THAT CARRIED THE TRIVIAL ONE (Proofs/C04_Table2.v).
+   C04_no_panic_inventory left 54 of the 167 rows with the claim True (KByType / KDocumented / KHarness).  C04_Table2.table2
+   is computed from C04_Table.table and the list C04_Table2.overrides: 21 of the KByType rows - every one whose function
+   has a Gallina model about which something can be stated - now carry a claim on that model (kind KRange), proved from
+   the existing totality / cost / UTF-8 theorems:
+     parser::to_u32 (no panic; Ok exactly below 2^32, ParseError::Overflow above), parser::default_port (a u16),
+     Input::new_no_trim / new_trim_tab_and_newlines / new_trim_c0_control_and_space / is_empty / split_prefix (what they
+     return is a &str again: scalar values), Parser::parse_scheme (scheme a-z 0-9 + - ., the remaining input a suffix and a
+     &str), Parser::file_host (slices in range, 2 steps per character, no panic outcome of its two callers for any host
+     parser), Parser::parse_query / parse_fragment / parse_cannot_be_a_base_path (cost twins, 13n+1),
+     percent_decode / percent_decode_str / PercentDecode::decode_utf8 / decode_utf8_lossy (3 steps per byte, output not
+     longer than the input, the String of the lossy view is scalar values, the reused Vec is valid UTF-8),
+     AsciiSet::union / complement (the words stay u32 values; membership is the set operation),
+     Serializer::new (position 0 is in range and a character boundary: ANY session of well-formed operations on ANY target
+     ends in Ok - neither the documented for_suffix panic nor F-C15-1 can occur),
+     FragmentIdentifier::to_percent_encoded (ASCII), Mime::get_parameter (exactly the parameter pairs of a parse result).
+     (1) the key columns of table2 ARE the regenerated inventory T_C04_API;
+     (2) every claim holds (the 37 old ones and the 11 new ones), hence the claim of every row;
+     (3) every override names exactly one row of the old table, a KByType row with the trivial claim, and its new claim
+         is not the trivial one;
+     (4) the rows that are not overridden keep kind and pinned theorem;
+     (5) exactly the rows of kind K KByType / K KDocumented / K KHarness carry the trivial claim;
+     (6) census: 76 KTheorem, 20 KExact, 17 KOutside, 21 KRange, 27 KByType (constructors, field reads, matches on an enum:
+         ParseOptions::base_url / encoding_override, Url::options / as_str / into_string / has_host / port, Host::to_owned,
+         Origin::is_tuple / ascii_serialization, SyntaxViolation::description, SchemeType::is_special / is_file,
+         Parser::for_setter, parser::ascii_alpha / is_windows_drive_letter, quirks::internal_components / href, Idna::new,
+         the four Config builders, Uts46::new, Serializer::encoding_override, DataUrl::mime_type, Decoder::new),
+         2 KDocumented, 4 KHarness: 33 rows with the trivial claim instead of 54. *)
+Theorem C04_no_panic_inventory2 :
+  map C04_Table2.row2_key C04_Table2.table2 = T_C04_API
+  /\ ((forall q, C04_Table2.claim2 q)
+      /\ Forall (fun r => C04_Table2.claim2 (C04_Table2.r2_claim r)) C04_Table2.table2)
+  /\ C04_Table2.overrides_sound_b = true
+  /\ C04_Table2.table2_keeps_b = true
+  /\ C04_Table2.kinds2_consistent_b = true
+  /\ (length C04_Table2.table2 = 167%nat /\ length C04_Table2.overrides = 21%nat
+      /\ C04_Table2.count_kind2 (C04_Table2.K C04_Table.KTheorem) = 76%nat
+      /\ C04_Table2.count_kind2 (C04_Table2.K C04_Table.KExact) = 20%nat
+      /\ C04_Table2.count_kind2 (C04_Table2.K C04_Table.KOutside) = 17%nat
+      /\ C04_Table2.count_kind2 C04_Table2.KRange = 21%nat
+      /\ C04_Table2.count_kind2 (C04_Table2.K C04_Table.KByType) = 27%nat
+      /\ C04_Table2.count_kind2 (C04_Table2.K C04_Table.KDocumented) = 2%nat
+      /\ C04_Table2.count_kind2 (C04_Table2.K C04_Table.KHarness) = 4%nat).
+Proof.
+  exact (conj C04_Table2.table2_complete (conj (conj C04_Table2.claims2_hold C04_Table2.table2_sound)
+        (conj C04_Table2.overrides_sound (conj C04_Table2.table2_keeps (conj C04_Table2.kinds2_consistent
+        C04_Table2.table2_counts))))).
+Qed.
+Check C04_no_panic_inventory2 :
+  map C04_Table2.row2_key C04_Table2.table2 = T_C04_API
+  /\ ((forall q, C04_Table2.claim2 q)
+      /\ Forall (fun r => C04_Table2.claim2 (C04_Table2.r2_claim r)) C04_Table2.table2)
+  /\ C04_Table2.overrides_sound_b = true
+  /\ C04_Table2.table2_keeps_b = true
+  /\ C04_Table2.kinds2_consistent_b = true
+  /\ (length C04_Table2.table2 = 167%nat /\ length C04_Table2.overrides = 21%nat
+      /\ C04_Table2.count_kind2 (C04_Table2.K C04_Table.KTheorem) = 76%nat
+      /\ C04_Table2.count_kind2 (C04_Table2.K C04_Table.KExact) = 20%nat
+      /\ C04_Table2.count_kind2 (C04_Table2.K C04_Table.KOutside) = 17%nat
+      /\ C04_Table2.count_kind2 C04_Table2.KRange = 21%nat
+      /\ C04_Table2.count_kind2 (C04_Table2.K C04_Table.KByType) = 27%nat
+      /\ C04_Table2.count_kind2 (C04_Table2.K C04_Table.KDocumented) = 2%nat
+      /\ C04_Table2.count_kind2 (C04_Table2.K C04_Table.KHarness) = 4%nat).
+Print Assumptions C04_no_panic_inventory2.
+
+(* non-vacuity of the new claims: concrete values *)
+Example C04_inventory2_instances :
+  to_u32 4294967295 = POk 4294967295 /\ to_u32 4294967296 = PErr Overflow
+  /\ default_port s_https = Some 443
+  /\ aset_wf (aset_complement T_PATH_SEGMENT) /\ aset_wf (aset_union T_PATH_SEGMENT T_FRAGMENT)
+  /\ DataUrl.to_percent_encoded [97; 9; 32; 233; 60] = [97; 37; 50; 48; 37; 69; 57; 37; 51; 67]
+  /\ file_host [104; 9; 111; 47; 120] = ([104; 111], [47; 120])
+  /\ parse_scheme CUrlParser [72; 116; 9; 84; 80; 58; 47] = Some ([104; 116; 116; 112], [47])
+  /\ inp_split_prefix_str [47; 47] [9; 47; 10; 47; 120] = Some [120]
+  /\ snd (FormUrlencoded.decode_utf8_lossy (pd_cow [37; 70; 70; 97])) = [65533; 97].
+Proof. vm_compute. repeat split; try reflexivity; intros H; discriminate H. Qed.
+
+(* FINDING F-C04-9 ON THE REPAIRED FAMILY, FOR EVERY n (Proofs/C04_Quad2.v).  C04_9_quadratic_statement speaks of the family
+   mime_distinct, whose counter has 10 digits of fuel: above n = 10^10 its names repeat, so that statement is not what the
+   finding says (superseded, kept as a Definition; proved up to 10^10 in C04_9_quadratic_partial).  mime_distinct2 is the
+   family the finding describes - "a/b" followed by ";p0=1;p1=1;...;p<n-1>=1", every counter written with as many decimal
+   digits as it needs - and C04_9_quadratic_statement2 is the statement for it. *)
+From RU Require Proofs.C04_Quad2.
+Definition C04_9_quadratic_statement2 : Prop :=
+  forall n, N.of_nat n * (N.of_nat n - 1) <= 2 * C04_CostMime.mime_parse_cost (C04_Quad2.mime_distinct2 n).
+
+Theorem C04_9_quadratic : C04_9_quadratic_statement2.
+Proof. exact C04_Quad2.f_c04_9_all_n2. Qed.
+Check C04_9_quadratic : forall n, N.of_nat n * (N.of_nat n - 1) <= 2 * C04_CostMime.mime_parse_cost (C04_Quad2.mime_distinct2 n).
+Print Assumptions C04_9_quadratic.
+
+(* the repaired family: it IS the old one up to 10^10 parameters, it is the member of every bounded-counter family with
+   enough digits, it consists of &str values, and it is short - F + 5 bytes per parameter while n <= 10^(F+1), i.e.
+   |input| = O(n log n) *)
+Theorem C04_9_family :
+  (forall n, N.of_nat n <= 10000000000 -> C04_Quad2.mime_distinct2 n = C04_CostMime.mime_distinct n)
+  /\ (forall F n, N.of_nat n <= 10 ^ N.of_nat (S F) -> C04_Quad2.mime_distinct2 n = C04_Quad.mime_distinct_f (S F) n)
+  /\ (forall n, usv_list (C04_Quad2.mime_distinct2 n))
+  /\ (forall F n, N.of_nat n <= 10 ^ N.of_nat (S F) ->
+        nlen (C04_Quad2.mime_distinct2 n) <= (N.of_nat (S F) + 4) * N.of_nat n + 3).
+Proof.
+  exact (conj C04_Quad2.mime_distinct2_old (conj C04_Quad2.mime_distinct2_family
+        (conj C04_Quad2.mime_distinct2_usv C04_Quad2.mime_distinct2_len))).
+Qed.
+Check C04_9_family :
+  (forall n, N.of_nat n <= 10000000000 -> C04_Quad2.mime_distinct2 n = C04_CostMime.mime_distinct n)
+  /\ (forall F n, N.of_nat n <= 10 ^ N.of_nat (S F) -> C04_Quad2.mime_distinct2 n = C04_Quad.mime_distinct_f (S F) n)
+  /\ (forall n, usv_list (C04_Quad2.mime_distinct2 n))
+  /\ (forall F n, N.of_nat n <= 10 ^ N.of_nat (S F) ->
+        nlen (C04_Quad2.mime_distinct2 n) <= (N.of_nat (S F) + 4) * N.of_nat n + 3).
+Print Assumptions C04_9_family.
+
+(* hence NO linear bound a * |input| + b holds for Mime::from_str in the cost model: for every a, b a &str of the family
+   costs more (the counterpart of C04_8_refuted for the path state; the matching upper bound is C04_cost_mime:
+   (14 + P)(n + 1) + 4 with P the number of parameters) *)
+Theorem C04_9_refuted : forall a b : N, exists s, usv_list s /\ a * nlen s + b < C04_CostMime.mime_parse_cost s.
+Proof. exact C04_Quad2.f_c04_9_no_linear. Qed.
+Check C04_9_refuted : forall a b : N, exists s, usv_list s /\ a * nlen s + b < C04_CostMime.mime_parse_cost s.
+Print Assumptions C04_9_refuted.
+
+(* the family at n = 12: the text, that it parses to 12 parameters, and its cost *)
+Example C04_9_family_instance :
+  C04_Quad2.mime_distinct2 3 = [97; 47; 98; 59; 112; 48; 61; 49; 59; 112; 49; 61; 49; 59; 112; 50; 61; 49]
+  /\ C04_CostMime.n_params (C04_Quad2.mime_distinct2 12) = 12
+  /\ 12 * 11 <= 2 * C04_CostMime.mime_parse_cost (C04_Quad2.mime_distinct2 12).
+Proof. vm_compute. repeat split; intros H; discriminate H. Qed.
+
+(* COST OF THE HEADER PRE-PARSER OF DataUrl::process (Proofs/C04_CostData.v; cost semantics of Model/Cost.v: one step per
+   element examined by a scan or loop, per String::push, slice or literal comparison; push_str of x = nlen x).  The step
+   counts follow the data flow of the model functions of Model/DataUrl.v (pretend_parse_data_url,
+   find_comma_before_fragment, parse_header, remove_base64_suffix) on the UTF-8 bytes of the argument:
+     (1) everything except Mime::from_str costs at most 13 |input| + 31 steps, for EVERY byte input;
+     (2) the String handed to Mime::from_str (header_text) has at most 3 |input| + 10 bytes and is a &str;
+     (3) it IS the string the model parses: the MIME type of every DataUrl returned is its parse result or the fallback;
+     (4) the whole: 13 |input| + 31 + (14 + P)(3 |input| + 11) + 4 when the header parses to a MIME type with P
+         parameters - linear for a bounded number of parameters; the product term is finding F-C04-9 (C04_9_quadratic,
+         C04_9_refuted) reaching DataUrl::process through its MIME header;
+     (5) inputs that do not reach Mime::from_str (not a data: URL, no comma): 13 |input| + 31.
+   The body decoders are C04_cost_base64 / C04_cost_percent_encoding. *)
+From RU Require Proofs.C04_CostData.
+Theorem C04_cost_data_url : forall input, bytes input ->
+  C04_CostData.scan_cost input <= 13 * nlen input + 31
+  /\ (forall hs, C04_CostData.header_text input = Some hs -> nlen hs <= 3 * nlen input + 10 /\ usv_list hs)
+  /\ (forall d, DataUrl.process_bytes input = Mime.Ok (inl d) ->
+        exists hs parsed, C04_CostData.header_text input = Some hs /\ Mime.from_str hs = Mime.Ok parsed
+          /\ DataUrl.du_mime_type d = match parsed with Some m => m | None => DataUrl.fallback_mime end)
+  /\ (forall hs m, C04_CostData.header_text input = Some hs -> Mime.parse hs = Mime.Ok (Some m) ->
+        C04_CostData.process_cost input
+        <= 13 * nlen input + 31 + (14 + C04_CostMime.plen (Mime.m_params m)) * (3 * nlen input + 11) + 4)
+  /\ (C04_CostData.header_text input = None -> C04_CostData.process_cost input <= 13 * nlen input + 31).
+Proof.
+  intros input Hb. split; [exact (C04_CostData.scan_cost_linear input)|]. split.
+  - intros hs H. exact (conj (C04_CostData.header_text_len input hs H) (C04_CostData.header_text_usv input hs Hb H)).
+  - split; [exact (C04_CostData.header_text_model input)|]. split.
+    + intros hs m H1 H2. exact (C04_CostData.process_cost_linear input hs m Hb H1 H2).
+    + exact (C04_CostData.process_cost_no_header input).
+Qed.
+Check C04_cost_data_url : forall input, bytes input ->
+  C04_CostData.scan_cost input <= 13 * nlen input + 31
+  /\ (forall hs, C04_CostData.header_text input = Some hs -> nlen hs <= 3 * nlen input + 10 /\ usv_list hs)
+  /\ (forall d, DataUrl.process_bytes input = Mime.Ok (inl d) ->
+        exists hs parsed, C04_CostData.header_text input = Some hs /\ Mime.from_str hs = Mime.Ok parsed
+          /\ DataUrl.du_mime_type d = match parsed with Some m => m | None => DataUrl.fallback_mime end)
+  /\ (forall hs m, C04_CostData.header_text input = Some hs -> Mime.parse hs = Mime.Ok (Some m) ->
+        C04_CostData.process_cost input
+        <= 13 * nlen input + 31 + (14 + C04_CostMime.plen (Mime.m_params m)) * (3 * nlen input + 11) + 4)
+  /\ (C04_CostData.header_text input = None -> C04_CostData.process_cost input <= 13 * nlen input + 31).
+Print Assumptions C04_cost_data_url.
+
+(* " dAta:;a=1; base64,eHg#f" : the header text is "text/plain;a=1" (prefix added, base64 suffix removed), it parses to
+   one parameter, and the step count of the whole pre-parser is 163 on these 24 bytes (54 without Mime::from_str) *)
+Example C04_cost_data_url_instance :
+  let input := [32; 100; 65; 116; 97; 58; 59; 97; 61; 49; 59; 32; 98; 97; 115; 101; 54; 52; 44; 101; 72; 103; 35; 102] in
+  C04_CostData.header_text input = Some [116; 101; 120; 116; 47; 112; 108; 97; 105; 110; 59; 97; 61; 49]
+  /\ (exists m, Mime.parse [116; 101; 120; 116; 47; 112; 108; 97; 105; 110; 59; 97; 61; 49] = Mime.Ok (Some m)
+                /\ C04_CostMime.plen (Mime.m_params m) = 1)
+  /\ C04_CostData.scan_cost input = 54 /\ C04_CostData.process_cost input = 163.
+Proof.
+  cbv zeta. split; [vm_compute; reflexivity|]. split.
+  - eexists. split; vm_compute; reflexivity.
+  - split; vm_compute; reflexivity.
+Qed.
+
+(* COST OF Url::make_relative (Proofs/C04_CostRel.v; model Model/MakeRelative.v; cost semantics of Model/Cost.v: rfind is a
+   reverse search, a split('/') iterator examines every byte of its text once, slice equality compares the lengths and
+   then at most the common length, push_str of x = nlen x).  The step counts follow the data flow of the model:
+     (1) the path part (two extract_path_filename, the two segment iterators, the skip loop over common segments, the
+         ".." loop, the copy loop, the filename rule) costs at most 9 |base path| + 6 |url path| + 26;
+     (2) the whole method (comparisons of cannot_be_a_base / scheme / host / port, the path part, the copies of query and
+         fragment) at most 12 |base| + 8 |url| + 35 in the lengths of the two serializations - linear, no product term:
+         every loop consumes its iterator;
+     (3) whenever the method returns a relative reference the accessors the count is defined from returned as well. *)
+From RU Require Proofs.C04_CostRel.
+Theorem C04_cost_make_relative : forall dbg b t,
+  (forall pb pt, C04_CostRel.mr_path_k pb pt <= 9 * nlen pb + 6 * nlen pt + 26)
+  /\ C04_CostRel.make_relative_k dbg b t <= 12 * nlen (ser b) + 8 * nlen (ser t) + 35
+  /\ (forall r, MakeRelative.make_relative dbg b t = Some (Some r) ->
+        exists sb st pb pt q f, scheme b = Some sb /\ scheme t = Some st /\ path b = Some pb /\ path t = Some pt
+          /\ query dbg t = Some q /\ fragment dbg t = Some f).
+Proof.
+  intros dbg b t. exact (conj C04_CostRel.mr_path_k_le (conj (C04_CostRel.make_relative_k_le dbg b t)
+        (C04_CostRel.make_relative_k_defined dbg b t))).
+Qed.
+Check C04_cost_make_relative : forall dbg b t,
+  (forall pb pt, C04_CostRel.mr_path_k pb pt <= 9 * nlen pb + 6 * nlen pt + 26)
+  /\ C04_CostRel.make_relative_k dbg b t <= 12 * nlen (ser b) + 8 * nlen (ser t) + 35
+  /\ (forall r, MakeRelative.make_relative dbg b t = Some (Some r) ->
+        exists sb st pb pt q f, scheme b = Some sb /\ scheme t = Some st /\ path b = Some pb /\ path t = Some pt
+          /\ query dbg t = Some q /\ fragment dbg t = Some f).
+Print Assumptions C04_cost_make_relative.
+
+(* http://h/a/b/c?x against http://h/a/d/e?q#f gives "../d/e?q#f" in 64 steps (48 for the path part) *)
+Example C04_cost_make_relative_instance :
+  exists b t, parse_url true toy_hp toy_hp toy_hd None None [104;116;116;112;58;47;47;104;47;97;47;98;47;99;63;120] = POk b
+    /\ parse_url true toy_hp toy_hp toy_hd None None [104;116;116;112;58;47;47;104;47;97;47;100;47;101;63;113;35;102] = POk t
+    /\ MakeRelative.make_relative true b t = Some (Some [46; 46; 47; 100; 47; 101; 63; 113; 35; 102])
+    /\ C04_CostRel.make_relative_k true b t = 64
+    /\ C04_CostRel.mr_path_k [47;97;47;98;47;99] [47;97;47;100;47;101] = 48.
+Proof. eexists. eexists. split; [vm_compute; reflexivity|]. split; [vm_compute; reflexivity|]. vm_compute. repeat split. Qed.
+
+(* COST OF THE FILE-PATH CONVERSIONS (Proofs/C04_CostFile.v; model Model/FilePath.v, cfg(unix); cost semantics of
+   Model/Cost.v: Path::components() / split('/') examine every byte of their text once, the percent-encoder and the
+   percent-decoder are the twins pe_chunks_c / decode_c - their counts include the bytes written -, push = 1).  The step
+   counts follow the data flow of the model:
+     (1) Url::from_file_path (path_to_file_url_segments; from_directory_path adds two steps): at most 6 |path| + 10;
+     (2) Url::to_file_path (path_segments, the host test, file_url_segments_to_pathbuf): at most 5 |url| + 14 in the length
+         of the serialization.
+   Linear: every component / segment is encoded or decoded once. *)
+From RU Require Proofs.C04_CostFile.
+Theorem C04_cost_file_path :
+  (forall p, C04_CostFile.from_file_path_k p <= 6 * nlen p + 10)
+  /\ (forall u, C04_CostFile.to_file_path_k u <= 5 * nlen (ser u) + 14).
+Proof. exact (conj C04_CostFile.from_file_path_k_le C04_CostFile.to_file_path_k_le). Qed.
+Check C04_cost_file_path :
+  (forall p, C04_CostFile.from_file_path_k p <= 6 * nlen p + 10)
+  /\ (forall u, C04_CostFile.to_file_path_k u <= 5 * nlen (ser u) + 14).
+Print Assumptions C04_cost_file_path.
+
+(* "/a b/../c.txt" -> file:///a%20b/../c.txt in 49 steps, and back in 57 *)
+Example C04_cost_file_path_instance :
+  let p := [47; 97; 32; 98; 47; 46; 46; 47; 99; 46; 116; 120; 116] in
+  C04_CostFile.from_file_path_k p = 49
+  /\ exists u, FilePath.from_file_path p = FilePath.FOk u
+       /\ ser u = [102; 105; 108; 101; 58; 47; 47; 47; 97; 37; 50; 48; 98; 47; 46; 46; 47; 99; 46; 116; 120; 116]
+       /\ FilePath.to_file_path true u = FilePath.FOk p /\ C04_CostFile.to_file_path_k u = 57.
+Proof. cbv zeta. split; [vm_compute; reflexivity|]. eexists. split; [vm_compute; reflexivity|]. vm_compute. repeat split. Qed.
